@@ -5,6 +5,7 @@ sys.path.insert(0, '/verif')
 from harness import common, engine
 common.prime()
 DESCR = {
+ "C19-D18-annotated-callable-raises": "gen on an in-memory class/function whose signature carries annotations raises SyntaxError: the annotation object is turned into the text \"<class 'int'>\" and parsed as a type",
  "C14-eval-onto-a-function-argument-raises": "eval mode with a function argument as output address raises AttributeError (the generated AnnAssign has no value for the default patching)",
  "C14-eval-of-a-scalar-or-string-value": "eval mode turns the evaluated value into Literal[...] by iterating it: a scalar raises TypeError and a string becomes a Literal of its characters (Literal['a', 'd', 'a', 'm'])",
  "C14-wrap-applied-again-when-an-input-address-repeats": "the wrap template is written into the INPUT tree's node, so when the same input address is used by a second pair its annotation is wrapped twice (Union[Union[X, str], str])",
